@@ -33,6 +33,15 @@ impl Drop for Guard {
     }
 }
 
+/// Counts a stopper/racer thread as finished even if the call it made panicked (the panic itself
+/// is reported through the process-wide panic hook).
+struct DoneGuard(Arc<AtomicU64>);
+impl Drop for DoneGuard {
+    fn drop(&mut self) {
+        self.0.fetch_add(1, Ordering::SeqCst);
+    }
+}
+
 fn callback(route: u32, log: &Arc<Mutex<Vec<Ev>>>) -> ipc_channel::router::RouterHandler {
     let guard = Guard { route, log: log.clone() };
     let l2 = log.clone();
@@ -50,7 +59,7 @@ pub fn run_case(ctx: &Ctx, case: u64) {
     let nroutes = r.below(17) as usize;
     let by_drop = r.chance(350);
     let nshut = if by_drop { 0 } else { r.range(1, 4) as usize };
-    let nracers = if by_drop { 0 } else { r.below(4) as usize };
+    let nracers = if by_drop { 0 } else { *r.pick(&[0usize, 1, 2, 3, 4, 6, 8]) };
     let nlate = r.below(3) as usize;
     let log: Arc<Mutex<Vec<Ev>>> = Arc::new(Mutex::new(Vec::new()));
     let panics_before = panic_count();
@@ -109,40 +118,72 @@ pub fn run_case(ctx: &Ctx, case: u64) {
         let p = proxy_opt.take().unwrap();
         let (fr, sc, done) = (first_stop_ret.clone(), stop_call.clone(), stop_threads_done.clone());
         stoppers.push(std::thread::spawn(move || {
+            let _done = DoneGuard(done);
             sc.fetch_min(now_ns(), Ordering::SeqCst);
             drop(p);
             fr.fetch_min(now_ns(), Ordering::SeqCst);
-            done.fetch_add(1, Ordering::SeqCst);
         }));
     } else {
         let proxy = proxy_opt.as_ref().unwrap();
+        // when racers offer routes back to back, the first shutdown call waits until a (seeded)
+        // number of offers has been made, so that it lands in the middle of the stream
+        let offers = Arc::new(AtomicU64::new(0));
+        let spins: Vec<bool> = (0..nracers).map(|_| r.chance(700)).collect();
+        let any_spin = spins.iter().any(|s| *s);
         for _ in 0..nshut {
-            let (p, fr, sc, done) = (proxy.clone(), first_stop_ret.clone(), stop_call.clone(), stop_threads_done.clone());
+            let (p, fr, sc, done, offers) = (proxy.clone(), first_stop_ret.clone(), stop_call.clone(), stop_threads_done.clone(), offers.clone());
             let pause = r.below(300);
+            let after_offers = if any_spin { r.range(1, 60) } else { 0 };
             stoppers.push(std::thread::spawn(move || {
+                let _done = DoneGuard(done);
                 std::thread::sleep(Duration::from_micros(pause));
+                let t0 = now_ns();
+                while offers.load(Ordering::SeqCst) < after_offers && now_ns() - t0 < 50_000_000 {
+                    std::hint::spin_loop();
+                }
                 sc.fetch_min(now_ns(), Ordering::SeqCst);
                 p.shutdown();
                 fr.fetch_min(now_ns(), Ordering::SeqCst);
-                done.fetch_add(1, Ordering::SeqCst);
             }));
         }
         for k in 0..nracers {
-            let (p, ri, done, log2) = (proxy.clone(), racer_info.clone(), stop_threads_done.clone(), log.clone());
+            let (p, ri, done, fr, offers) = (proxy.clone(), racer_info.clone(), stop_threads_done.clone(), first_stop_ret.clone(), offers.clone());
             let pause = r.below(400);
-            let route = 100 + k as u32;
-            stoppers.push(std::thread::spawn(move || {
-                std::thread::sleep(Duration::from_micros(pause));
+            // half of the racers offer one route; the others offer routes back to back from before
+            // the shutdown until one offer has begun after a shutdown call returned. Channels and
+            // callbacks are prepared beforehand so that the offers follow each other densely.
+            let spin = spins[k];
+            let mut prepared = Vec::new();
+            for j in 0..if spin { 150u32 } else { 1 } {
+                let route = if spin { 10_000 + 1000 * k as u32 + j } else { 100 + k as u32 };
                 let (tx, rx) = must("channel", ipc::channel::<M>());
                 let _ = tx.send((route, 0, Blob(vec![1])));
-                let call = now_ns();
-                p.add_route(rx.to_opaque(), callback(route, &log2));
-                let ret = now_ns();
-                ri.lock().unwrap().push((route, call, ret));
-                // keep the sender around a little so the route is live if it was registered
+                prepared.push((route, tx, rx.to_opaque(), callback(route, &log)));
+            }
+            stoppers.push(std::thread::spawn(move || {
+                let _done = DoneGuard(done);
+                std::thread::sleep(Duration::from_micros(pause));
+                let mut keep = Vec::new();
+                let mut unused = Vec::new();
+                let mut finished = false;
+                for (route, tx, rx, cb) in prepared {
+                    if finished {
+                        unused.push((tx, rx, cb));
+                        continue;
+                    }
+                    let stopped_before = fr.load(Ordering::SeqCst) != u64::MAX;
+                    let call = now_ns();
+                    offers.fetch_add(1, Ordering::SeqCst);
+                    p.add_route(rx, cb);
+                    let ret = now_ns();
+                    ri.lock().unwrap().push((route, call, ret));
+                    keep.push(tx);
+                    finished = stopped_before;
+                }
+                // keep the senders around a little so the routes are live if they were registered
                 std::thread::sleep(Duration::from_micros(500));
-                drop(tx);
-                done.fetch_add(1, Ordering::SeqCst);
+                drop(keep);
+                drop(unused);
             }));
         }
     }
@@ -177,7 +218,9 @@ pub fn run_case(ctx: &Ctx, case: u64) {
             let route = 200 + k as u32;
             let (tx, rx) = must("channel", ipc::channel::<M>());
             let _ = tx.send((route, 0, Blob(vec![2])));
-            proxy.add_route(rx.to_opaque(), callback(route, &log));
+            // (a panic here - e.g. a proxy mutex poisoned by an earlier panic - is reported below)
+            let cb = callback(route, &log);
+            let _ = std::panic::catch_unwind(std::panic::AssertUnwindSafe(|| proxy.add_route(rx.to_opaque(), cb)));
             let ret = now_ns();
             late_routes.push((route, ret, tx));
         }
@@ -207,6 +250,8 @@ pub fn run_case(ctx: &Ctx, case: u64) {
     }
     let l = log.lock().unwrap().clone();
     let racers = racer_info.lock().unwrap().clone();
+    let mut base = base;
+    base["racing_add_route_calls"] = json!(racers.len());
     if !by_drop {
         for r_ in &cb_routes {
             match l.iter().find_map(|e| if let Ev::Dropped { route, at } = e { if route == r_ { Some(*at) } else { None } } else { None }) {
@@ -292,6 +337,7 @@ fn report(ctx: &Ctx, case: u64, base: Value, problems: Vec<(String, Value)>, l: 
     rep.stat("callback_invocations", l.iter().filter(|e| matches!(e, Ev::Invoke { .. })).count() as i64);
     rep.stat("messages_sent", sent as i64);
     rep.stat("racing_add_route_threads", base["racing_add_route_threads"].as_i64().unwrap_or(0));
+    rep.stat("racing_add_route_calls", base["racing_add_route_calls"].as_i64().unwrap_or(0));
     let stop = base["stop"].as_str().unwrap_or("?").to_string();
     let mut seen = std::collections::BTreeSet::new();
     for (k, d) in problems {
